@@ -86,3 +86,11 @@ var probeEdges = []emitted{
 	hist(cNewTask("title", "A"), cNewTask("title", "B"), cSeq("i1", "i2"), cSeq("i1", "i2"), cSeqRm("i1", "i2"), cSeqRm("i1", "i2"), cSeq("i2", "i1")),
 	hist(cNewEpic("E1"), cNewEpic("E2"), cSeq("i1", "i2"), cSeq("i2", "i1"), cNewTask("title", "A"), cSeq("i1", "i3"), cSeq("i3", "i1")),
 }
+
+// D14: the id source proposes pruned ids (forced through the verif id hook)
+func reuse(c Cmd) Cmd { c["reuse_gone"] = true; return c }
+
+var probeReissue = []emitted{
+	hist(cNewTask("title", "A", "state", "done"), cNewTask("title", "B", "state", "canceled"), cPrune(), reuse(cNewTask("title", "C")), reuse(cNewEpic("E")), cListReady()),
+	hist(cNewEpic("E"), cPrune(), reuse(Cmd{"name": "plan", "mode": "json", "doc": map[string]any{"title": "P", "tasks": []any{map[string]any{"title": "x"}}}})),
+}
